@@ -163,6 +163,10 @@ func raceOne(vc *VC, ob *Oblig, base string, cfg solveCfg) {
 	}
 	ctx, cancel := context.WithCancel(context.Background())
 	defer cancel()
+	tmo := cfg.raceTimeoutS
+	if ob.IsCover && tmo > 4 {
+		tmo = 4
+	}
 	ch := make(chan res, len(solvers))
 	for _, s := range solvers {
 		s := s
@@ -170,7 +174,7 @@ func raceOne(vc *VC, ob *Oblig, base string, cfg solveCfg) {
 			f := fmt.Sprintf("%s.%s.smt2", base, s.name)
 			os.WriteFile(f, []byte(forSolver(s.name, script)), 0o644)
 			t0 := time.Now()
-			out, _ := runCmd(ctx, s.args(f, cfg.raceTimeoutS))
+			out, _ := runCmd(ctx, s.args(f, tmo))
 			if !cfg.keep {
 				os.Remove(f)
 			}
@@ -186,6 +190,7 @@ func raceOne(vc *VC, ob *Oblig, base string, cfg solveCfg) {
 	if ob.IsCover {
 		want, bad = "sat", "unsat"
 	}
+
 	var outs []string
 	for range solvers {
 		r := <-ch
@@ -212,7 +217,7 @@ func raceOne(vc *VC, ob *Oblig, base string, cfg solveCfg) {
 		// reachability is a vacuity check on the contracts: retry without the quantified background
 		// axioms (which only constrain uninterpreted helper functions), where `sat` is decidable
 		f := base + ".noax.smt2"
-		os.WriteFile(f, []byte(vc.header()+vc.standaloneBody(ob, false)), 0o644)
+		os.WriteFile(f, []byte(dropQuantified(vc.header()+vc.standaloneBody(ob, false))), 0o644)
 		ctx2, cancel2 := context.WithTimeout(context.Background(), time.Duration(cfg.raceTimeoutS)*time.Second)
 		out, _ := runCmd(ctx2, []string{"z3-new", fmt.Sprintf("-T:%d", cfg.raceTimeoutS), f})
 		cancel2()
@@ -241,4 +246,19 @@ func raceOne(vc *VC, ob *Oblig, base string, cfg solveCfg) {
 		}
 	}
 	ob.Output = strings.Join(outs, "; ")
+}
+
+// dropQuantified removes every top-level assertion that contains a quantifier (used only for
+// reachability covers: with fewer assumptions `sat` is decidable; the check then guards against
+// contradictions among the quantifier-free facts — preconditions, path conditions, ground invariants).
+func dropQuantified(script string) string {
+	var sb strings.Builder
+	for _, l := range strings.Split(script, "\n") {
+		if strings.HasPrefix(l, "(assert ") && (strings.Contains(l, "(forall ") || strings.Contains(l, "(exists ")) {
+			continue
+		}
+		sb.WriteString(l)
+		sb.WriteString("\n")
+	}
+	return sb.String()
 }
